@@ -218,7 +218,13 @@ func Property() runner.Property {
 			pre := []ctl.Mut{{Op: "set", Name: "a", Labels: "l=1"}}
 			W := func(k string, after int) fakeapi.WatchFault { return fakeapi.WatchFault{Kind: k, After: after} }
 			mk := func(name string, c ctl.Cfg) runner.Sc {
-				c.Name, c.Period, c.Tree, c.Mode, c.Bound = name, P, sub, "S2", d
+				c.Name, c.Period, c.Tree, c.Mode = name, P, sub, "S2"
+				if c.Bound == 0 {
+					c.Bound = d
+				}
+				if c.Defaults {
+					c.Period = time.Minute
+				}
 				if c.Bufsiz > 0 && !strings.HasSuffix(name, "+subscriber") {
 					c.Tree = nil
 				}
@@ -287,6 +293,13 @@ func Property() runner.Property {
 				}
 				// a burst well below every buffer of the path (30 changes at once, buffers hold 100): nothing is lost,
 				// however far any stage lags behind (deviation-bounded: which stage lags is the schedule's choice)
+				// the convenience constructor and its defaults (no filter, one list a minute): the late change is lost by the
+				// watch and found by the first relist
+				{
+					s := mk("defaults/NewController/watch-drop@0/late", ctl.Cfg{Defaults: true, Bound: 1, Pre: pre, Hist: []ctl.Mut{{Op: "set", Name: "a", Labels: "l=0"}, {Op: "set", Name: "b", Labels: "l=1", Delay: 4 * time.Second}}, WatchFaults: map[int]fakeapi.WatchFault{1: W("drop", 0)}, ReadAt: 70 * time.Second})
+					out = append(out, s)
+					out = append(out, mk("defaults/NewController/nofault/h3", ctl.Cfg{Defaults: true, Bound: 1, Pre: pre, Hist: h[:3]}))
+				}
 				out = append(out, burstScenario(pre, long[:30], ""))
 				// ... in particular the controller's own publisher (made slow through its log line)
 				out = append(out, burstScenario(pre, long[:30], "distribute event:"))
